@@ -151,6 +151,30 @@ impl PentagonShape {
         d_max
     }
 
+    /// Signed perpendicular distance from the point to the nearest edge line: positive when the point is
+    /// on the inner side of every edge, otherwise the distance (negated) by which it lies beyond the edge
+    /// it violates most. Unlike the value returned by `contains_point` it is a true length, so it can be
+    /// compared between pentagons.
+    pub fn edge_distance(&self, point: Face) -> f64 {
+        let n = self.vertices.len();
+        let mut d_min = f64::INFINITY;
+        for i in 0..n {
+            let v1 = self.vertices[i];
+            let v2 = self.vertices[(i + 1) % n];
+
+            let dx = v1.x() - v2.x();
+            let dy = v1.y() - v2.y();
+            let px = point.x() - v1.x();
+            let py = point.y() - v1.y();
+
+            let cross_product = dx * py - dy * px;
+            let edge_length = (dx * dx + dy * dy).sqrt();
+            d_min = d_min.min(cross_product / edge_length);
+        }
+
+        d_min
+    }
+
     /// Splits each edge of the pentagon into the specified number of segments
     /// Returns a new PentagonShape with more vertices, or the original PentagonShape if segments <= 1
     pub fn split_edges(&self, segments: usize) -> PentagonShape {
